@@ -45,22 +45,17 @@ def _factory(kind):
 
 
 def mkq(c, kind, name, valid=True, unit=None):
-    """A quantity input: symbolic value and symbolic unit (tier R) / real object in SI unit (tier C).
+    """A quantity input: symbolic SI magnitude `<name>` and symbolic unit `u_<name>` (tier R) /
+    the real class in the SI unit with the model's magnitude (tier C replay).
 
     valid=True assumes the kind's sign constraint (class invariant of inputs, as a precondition).
     """
     if c.concrete:
         import gearpy.units as GU
         v = c.real(name)
-        f = c.real(f"u_{name}#fac") if unit is None else 1.0
-        u = AU.SI_UNIT[kind] if unit is None else unit
-        return getattr(GU, kind)(v * (f if f else 1.0), u)
+        return getattr(GU, kind)(v, AU.SI_UNIT[kind] if unit is None else unit)
     v = c.real(name)
-    if unit is None:
-        u = SymUnit(kind, f"u_{name}")
-        c.inputs[f"u_{name}#fac"] = u.factor()
-    else:
-        u = unit
+    u = SymUnit(kind, f"u_{name}") if unit is None else unit
     if valid and kind in spec.SIGN:
         c.assume(z3.Not(L._b(AU.sign_violated(kind, v))))
     return SymQ(kind, v, u)
